@@ -67,12 +67,18 @@ TrFlip ==
     /\ Untouched /\ Adv /\ NoFlag /\ Keep
 
 \* detector pass: the set of waiters it released is logged
+\* E.m: the probes the pass started, as a bit mask over the addresses (bit i-1: AddrSeq[i])
+RECURSIVE MaskOf(_, _)
+MaskOf(S, i) == IF i > Len(AddrSeq) THEN 0 ELSE (IF AddrSeq[i] \in S THEN 2 ^ (i - 1) ELSE 0) + MaskOf(S, i + 1)
 TrDetect ==
     /\ IsEv("k.detect")
     /\ \E d \in BOOLEAN : Detect(d)
     /\ {k \in Callers : cst[k] = "waiting" /\ cst'[k] = "woken"} = SetOf(E.calls)
     \* callers waiting while a target is live and no fallback is in force are released by the pass
     /\ bad' = bad \cup (IF fallback = 0 /\ list # <<>> /\ waiters' # {} THEN {<<l, "notreleased">>} ELSE {})
+                  \* every pass probes every target that is marked unreachable (and no other)
+                  \* (not judged once the Client is closed: the recording of the run ends there, a pass still under way is cut off)
+                  \cup (IF ~closed /\ E.m # MaskOf({x \in targets : ~talive[x]}, 1) THEN {<<l, "probeset">>} ELSE {})
     /\ Adv /\ Keep
 
 \* probe completion: E.a address, E.b generation of the probed target object, E.s alive, E.seq list length afterwards
@@ -199,15 +205,28 @@ TrRtCall ==
        \* the decision and the RoundTripper seeing the call, and the call is then rightly on its way to the old target.)
        bad' = bad \cup (IF k \in Callers /\ cst[k] = "routed" /\ croute[k] # a THEN {<<l, "wrongroute">>} ELSE {})
     /\ UNCHANGED <<vars, pendUpd, lastProbeMs, updDone>> /\ Adv
-\* the call returned: E.a = 0 ok, 1 ErrShutdown, 2 ErrTimeout, 3 ErrDial, 4 other
+\* the harness ended the context of caller E.c, whose call is with the RoundTripper
+TrCancel ==
+    /\ IsEv("env.cancel") /\ InCallers(E.c) /\ cst[E.c] = "routed"
+    /\ cerr' = [cerr EXCEPT ![E.c] = "ctx"]
+    /\ UNCHANGED <<targets, gen, talive, lat, list, lastSet, pos, probeDue, waiters, cst, croute, cvia, closed, fallback, probes, health,
+                   director, rrHist, probedSinceTick>>
+    /\ Untouched /\ Adv /\ Keep /\ NoFlag
+\* ... and the call had not returned one second later
+TrCancelStuck ==
+    /\ IsEv("obs.cancelstuck")
+    /\ bad' = bad \cup {<<l, "cancelignored">>}
+    /\ UNCHANGED <<vars, pendUpd, lastProbeMs, updDone>> /\ Adv
+\* the call returned: E.a = 0 ok, 1 ErrShutdown, 2 ErrTimeout, 3 ErrDial, 5 the context's error, 4 other
 TrApiRet ==
     /\ IsEv("api.ret") /\ InCallers(E.c)
     /\ LET k == E.c
            isCallForm == E.k \in {"call", "ctx"}
            want == IF cst[k] = "done" THEN cerr[k]
-                   ELSE IF cst[k] = "routed" THEN (IF croute[k] \in Addrs /\ health[croute[k]] THEN "none" ELSE "dial")
+                   ELSE IF cst[k] = "routed" THEN (IF cerr[k] = "ctx" THEN "ctx"
+                                                   ELSE IF croute[k] \in Addrs /\ health[croute[k]] THEN "none" ELSE "dial")
                    ELSE "?"
-           got == CASE E.a = 0 -> "none" [] E.a = 1 -> "shutdown" [] E.a = 2 -> "timeout" [] E.a = 3 -> "dial" [] OTHER -> "other"
+           got == CASE E.a = 0 -> "none" [] E.a = 1 -> "shutdown" [] E.a = 2 -> "timeout" [] E.a = 3 -> "dial" [] E.a = 5 -> "ctx" [] OTHER -> "other"
        IN
        /\ bad' = bad \cup (IF want = "?" THEN {<<l, "returnedunrouted">>}
                            ELSE IF isCallForm /\ got # want THEN {<<l, "errkind">>}
@@ -231,7 +250,7 @@ TrObsEnd ==     \* E.a callers still blocked 1.5 s after Close
 
 TrNext ==
     \/ TrReset \/ TrApiUpdate \/ TrApiUpdateRet \/ TrUpdate \/ TrFlip \/ TrDetect \/ TrCheck \/ TrRouteClosed \/ TrSched \/ TrSchedNone
-    \/ TrDirector \/ TrRouteDirector \/ TrWait \/ TrTimeout \/ TrClose \/ TrFb \/ TrEwma \/ TrApiCall \/ TrRtCall \/ TrApiRet \/ TrObsClosing \/ TrObsEnd
+    \/ TrDirector \/ TrRouteDirector \/ TrWait \/ TrTimeout \/ TrClose \/ TrFb \/ TrEwma \/ TrApiCall \/ TrRtCall \/ TrCancel \/ TrCancelStuck \/ TrApiRet \/ TrObsClosing \/ TrObsEnd
 
 TrSpec == TrInit /\ [][TrNext]_tvars
 
@@ -244,5 +263,6 @@ BadWhat(w) == \A o \in bad : o[2] # w
 RouteOK == BadWhat("updateignored") /\ BadWhat("notdirector") /\ BadWhat("notinlist") /\ BadWhat("wrongroute") /\ BadWhat("nottarget") /\ BadWhat("updatesize")     \* C16
 PolicyOK == BadWhat("singlepath") /\ BadWhat("cursor") /\ BadWhat("notminimal") /\ BadWhat("probetoooften")
             /\ BadWhat("policy") /\ BadWhat("ewma") /\ BadWhat("deadnotmax") /\ BadWhat("notmarkeddead")                                  \* C17
-WaitersOK == BadWhat("notreleased") /\ BadWhat("stranded") /\ BadWhat("errkind") /\ BadWhat("returnedunrouted")                       \* C18
+CancelOK == BadWhat("cancelignored")                                                                                              \* C19
+WaitersOK == BadWhat("notreleased") /\ BadWhat("stranded") /\ BadWhat("errkind") /\ BadWhat("returnedunrouted") /\ BadWhat("probeset")                       \* C18
 ================================================================================
